@@ -174,6 +174,8 @@ def run(ctx):
   scope_ = []
   for mn_ in ('encoder_decoder', 'performance_encoder_decoder', 'melody_encoder_decoder', 'chords_encoder_decoder', 'pianoroll_encoder_decoder'):
     scope_.extend(fi_ for q_, fi_ in sorted(ctx.P.module(mn_).all_functions.items()) if fi_.cls is not None and '<locals>' not in q_)
+  pitfalls.apply(ctx, 'PITFALL', scope_, ['unzip-empty'], {
+      'unzip-empty': 'encode of a sequence with fewer than two events returns no (input, label) pairs - two empty lists - and must not raise'})
   pitfalls.apply(ctx, 'PITFALL', scope_, ['falsy-domain-zero'], {
       'falsy-domain-zero': 'a melody event of pitch 0 (the lowest note of an encoder built with min_note=0) is decoded as "no event": decoding the label of a repeat does not give the repeated event'})
   pitfalls.apply(ctx, 'PITFALL', scope_, ['unforwarded-parameter'], {
